@@ -33,8 +33,9 @@ def shape_of(t, depth=0):
         return (None, None)
     tag = t[0]
     if tag == "call" and t[1].split(".")[-1] in ("build_from_list", "create_dictionary_from_list", "create_hash_table"):
-        return ("dict", (None, None))
-    if tag == "call" and t[1].endswith("build_from_list"):
+        obj = _builder_object(t[1])
+        if obj is not None:
+            return ("object", obj)      # the builder hands out an instance of a repository class, not a dict
         return ("dict", (None, None))
     if tag == "cont":
         init = t[2]
@@ -67,8 +68,123 @@ def shape_of(t, depth=0):
     return (None, None)
 
 
+_REPO = [None]
+_BUILDER_MEMO = {}
+
+
+def _builder_object(key):
+    """The table builders (create_dictionary_from_list / create_hash_table / build_from_list) return a dict (or an EDB wrapping
+    one).  If one of them returns an instance of another repository class instead, -> that class (a user-defined lookup
+    structure whose miss behaviour has to be examined), else None."""
+    repo = _REPO[0]
+    if repo is None or "::" not in key:
+        return None
+    if key in _BUILDER_MEMO and _BUILDER_MEMO[key][0] is repo:
+        return _BUILDER_MEMO[key][1]
+    res = None
+    rel, qual = key.split("::")
+    try:
+        fi = repo.func(rel, qual)
+    except Exception:
+        fi = None
+    if fi is not None:
+        ft = fn_terms(repo, fi)
+        for n in ft.cfg.nodes:
+            if n.kind == "return" and n.stmt.value is not None:
+                try:
+                    t = ft.term(n.stmt.value, n.id)
+                except Exception:
+                    continue
+                for alt in (t[1] if t[0] == "phi" else [t]):
+                    if alt[0] == "call" and isinstance(alt[1], str) and alt[1].endswith(".__init__") and "::" in alt[1]:
+                        crel, cq = alt[1].split("::")
+                        cname = cq.rsplit(".", 1)[0]
+                        if cname.endswith("EncryptedDatabase") or (fi.cls is not None and cname == fi.cls.name):
+                            continue     # build_from_list: cls(D, config)
+                        try:
+                            res = repo.cls(crel, cname)
+                        except Exception:
+                            res = None
+    _BUILDER_MEMO[key] = (repo, res)
+    return res
+
+
+def check_custom_container(repo, rule, s, attr, ci):
+    """A user-defined lookup structure stands in for the dict: every list / sequence subscript on its lookup paths
+    (get, __getitem__, __contains__ and what they call on self) must be bound-checked or caught, otherwise the label of an
+    absent keyword can raise IndexError instead of reporting a miss."""
+    from ..facts import facts_of
+    from ..cfg import cfg_of
+    todo = [m for m in ("get", "__getitem__", "__contains__") if m in ci.methods]
+    seen = set()
+    n = 0
+    if not todo:
+        rule.fail(ci.module.rel, ci.name, ci.node.lineno, "custom container %s has no lookup" % attr,
+                  "%s: the container %s is now a %s, which defines neither get, __getitem__ nor __contains__" % (s.name, attr, ci.name))
+        return
+    while todo:
+        mn = todo.pop()
+        if mn in seen or mn not in ci.methods:
+            continue
+        seen.add(mn)
+        fi = ci.methods[mn]
+        for c in ast.walk(fi.node):
+            if isinstance(c, ast.Call) and isinstance(c.func, ast.Attribute) and isinstance(c.func.value, ast.Name) and c.func.value.id == "self":
+                todo.append(c.func.attr)
+        F = facts_of(fi)
+        cfg = cfg_of(fi.node)
+        for x in ast.walk(fi.node):
+            if not (isinstance(x, ast.Subscript) and isinstance(x.ctx, ast.Load) and isinstance(x.value, ast.Attribute) and
+                    isinstance(x.value.value, ast.Name) and x.value.value.id == "self"):
+                continue
+            if isinstance(x.slice, (ast.Constant, ast.Slice)):
+                continue
+            n += 1
+            idx, cont = unparse(x.slice), unparse(x.value)
+            ok = False
+            # (a) caught
+            from ..model import ancestors as _anc
+            for a in _anc(x):
+                if isinstance(a, ast.Try) and any(h.type is None or any(nm in unparse(h.type) for nm in ("IndexError", "LookupError", "Exception")) for h in a.handlers):
+                    ok = True
+                # (c) guarded inside the same condition:  idx < len(cont) and cont[idx] ...
+                if isinstance(a, ast.BoolOp) and isinstance(a.op, ast.And):
+                    for v in a.values:
+                        if any(y is x for y in ast.walk(v)):
+                            break
+                        if isinstance(v, ast.Compare) and len(v.ops) == 1:
+                            l_, r_ = unparse(v.left), unparse(v.comparators[0])
+                            if (isinstance(v.ops[0], ast.Lt) and l_ == idx and r_ == "len(%s)" % cont) or \
+                                    (isinstance(v.ops[0], ast.Gt) and r_ == idx and l_ == "len(%s)" % cont) or \
+                                    (isinstance(v.ops[0], ast.NotEq) and {l_, r_} == {idx, "len(%s)" % cont}):
+                                ok = True
+            # (b) established on every path to the subscript
+            if not ok:
+                try:
+                    nids = cfg.node_of_expr(x)
+                    for nid in nids:
+                        f = F.at(nid) or ()
+                        for (k, t) in f:
+                            if k[0] == "<" and k[1] == idx and k[2] == "len(%s)" % cont and t:
+                                ok = True
+                            if k[0] == "==" and {k[1], k[2]} == {idx, "len(%s)" % cont} and not t:
+                                ok = True
+                except Exception:
+                    pass
+            desc = {"scheme": s.name, "container": attr, "class": ci.name, "method": mn, "subscript": unparse(x)}
+            if ok:
+                rule.ok(desc)
+            else:
+                rule.fail_fn(fi, x, "unchecked subscript in the lookup of %s" % attr,
+                             "%s: the container %s is a %s whose %s evaluates %s without establishing %s < len(%s): for the label of an absent keyword (e.g. one that "
+                             "sorts after every stored label) this raises IndexError instead of reporting a miss" % (s.name, attr, ci.name, mn, unparse(x), idx, cont), witness=desc)
+    if n == 0:
+        rule.ok({"scheme": s.name, "container": attr, "class": ci.name, "note": "no computed subscripts on its lookup paths"})
+
+
 def edb_shapes(repo, s):
     """attr name -> shape, from the EDB constructor call(s) at the end of _Enc (or the builder classmethod)."""
+    _REPO[0] = repo
     enc = s.method("_Enc")
     ft = fn_terms(repo, enc)
     pos = s.ctor_positional(s.edb_cls)
@@ -191,18 +307,25 @@ def peel_safe(ft, acc, fi):
     cfg = ft.cfg
     nid = acc.node.id
     for tnode in cfg.nodes:
-        if tnode.kind != "test" or not isinstance(tnode.ast, ast.Compare) or len(tnode.ast.ops) != 1:
+        cmp_, pol = tnode.ast if tnode.kind == "test" else None, True
+        while isinstance(cmp_, ast.UnaryOp) and isinstance(cmp_.op, ast.Not):
+            cmp_, pol = cmp_.operand, not pol
+        if tnode.kind != "test" or not isinstance(cmp_, ast.Compare) or len(cmp_.ops) != 1:
             continue
-        cmp_ = tnode.ast
-        if not isinstance(cmp_.left, ast.Name) or not isinstance(cmp_.ops[0], (ast.Eq, ast.NotEq)):
+        if not isinstance(cmp_.ops[0], (ast.Eq, ast.NotEq)):
             continue
-        cterm = ft.name_term(cmp_.left.id, tnode.id)
+        cvar, other_side = cmp_.left, cmp_.comparators[0]
+        if not isinstance(cvar, ast.Name) and isinstance(other_side, ast.Name):
+            cvar, other_side = other_side, cvar      # `0 == counter`
+        if not isinstance(cvar, ast.Name):
+            continue
+        cterm = ft.name_term(cvar.id, tnode.id)
         if cterm[0] != "counter":
             continue
-        rhs = ft.term(cmp_.comparators[0], tnode.id)
+        rhs = ft.term(other_side, tnode.id)
         if rhs != ("const", cterm[1]):
             continue
-        later_edge = isinstance(cmp_.ops[0], ast.NotEq)  # edge label on which counter != start
+        later_edge = isinstance(cmp_.ops[0], ast.NotEq) == pol  # edge label on which counter != start
         succ = [b for (b, lab) in cfg.succ[tnode.id] if lab is later_edge]
         if not succ or not any(b == nid or cfg.can_reach(b, nid, avoid={tnode.id}) for b in succ):
             continue
@@ -218,7 +341,7 @@ def peel_safe(ft, acc, fi):
             if isinstance(a, (ast.GeneratorExp, ast.ListComp)):
                 for g in a.generators:
                     roots |= {x.id for x in ast.walk(g.iter) if isinstance(x, ast.Name)}
-        incs = [d.node for d in ft.defs if d.var == cmp_.left.id and d.kind == "aug"]
+        incs = [d.node for d in ft.defs if d.var == cvar.id and d.kind == "aug"]
         ok = True
         for v in roots:
             ids = ft.reaching(v, nid)
@@ -638,6 +761,11 @@ def check(repo):
         shapes = edb_shapes(repo, s)
         if not shapes:
             raise AnalysisError("no container shapes recovered for %s" % s.name)
+        for attr_, sh_ in list(shapes.items()):
+            if sh_ and sh_[0] == "object":
+                # a user-defined lookup structure in place of the dict: its own lookup code is examined, then it is used like a dict
+                check_custom_container(repo, r1, s, attr_, sh_[1])
+                shapes[attr_] = ("dict", (None, None))
         ft, accs = collect_accesses(repo, s, fi, shapes)
         edb_param, tk_param = fi.params[1], fi.params[2]
         if not accs:
@@ -790,6 +918,107 @@ def check(repo):
                     else:
                         r7.ok({"scheme": s.name, "method": mname, "primitive": t[1], "line": getattr(c, "lineno", 0)})
     r7.require(n_keyed >= 15, schemes[0].method("_Trap"), "keyed derivations floor", "only %d keyed label derivations found (expected >= 15)" % n_keyed)
+
+    # ------------------------------------------------------------------ R2.9 what a search collects may be nothing
+    r9 = Rule("R2.9", "a local list that stays empty when nothing is found is not indexed unguarded")
+    rules.append(r9)
+    from ..facts import facts_of
+    from ..cfg import cfg_of
+    for s in schemes:
+        fi = s.method("_Search")
+        cfg = cfg_of(fi.node)
+        F = None
+        empties, grows = {}, {}
+        for n in cfg.nodes:
+            st = n.stmt
+            if st is None or n.ast is None:
+                continue
+            if n.kind == "stmt" and isinstance(st, ast.Assign) and len(st.targets) == 1 and isinstance(st.targets[0], ast.Name):
+                v = st.value
+                if (isinstance(v, (ast.List, ast.Tuple)) and not v.elts) or (isinstance(v, ast.Call) and dotted(v.func) in ("list", "deque", "collections.deque") and not v.args):
+                    empties.setdefault(st.targets[0].id, []).append(n.id)
+                else:
+                    grows.setdefault(st.targets[0].id, []).append(n.id)
+            for c in ast.walk(n.ast if n.kind == "test" else st) if n.kind in ("stmt", "test") else []:
+                if isinstance(c, ast.Call) and isinstance(c.func, ast.Attribute) and isinstance(c.func.value, ast.Name) and c.func.attr in ("append", "extend", "insert", "add", "appendleft"):
+                    grows.setdefault(c.func.value.id, []).append(n.id)
+            if n.kind == "stmt" and isinstance(st, ast.AugAssign) and isinstance(st.target, ast.Name):
+                grows.setdefault(st.target.id, []).append(n.id)
+        for n in cfg.nodes:
+            if n.stmt is None or n.ast is None or n.kind not in ("stmt", "test", "return", "for"):
+                continue
+            root = n.ast if n.kind == "test" else (n.stmt.iter if n.kind == "for" else n.stmt)
+            for x in ast.walk(root):
+                if not (isinstance(x, ast.Subscript) and isinstance(x.ctx, ast.Load) and isinstance(x.value, ast.Name) and x.value.id in empties):
+                    continue
+                if not (isinstance(x.slice, ast.Constant) and isinstance(x.slice.value, int)) and \
+                        not (isinstance(x.slice, ast.UnaryOp) and isinstance(x.slice.operand, ast.Constant)):
+                    continue
+                v = x.value.id
+                # the empty initialisation still reaches here unless a growing statement lies on every path
+                reach_empty = any(cfg.can_reach(e, n.id, avoid=set(grows.get(v, ())) - {e}) for e in empties[v])
+                if not reach_empty:
+                    r9.ok({"scheme": s.name, "list": v, "line": n.line})
+                    continue
+                if F is None:
+                    F = facts_of(fi)
+                f = F.at(n.id) or ()
+                guarded = any((k[0] == "truth" and k[1] == v and t) or (k[0] == "<" and k[1] == "0" and k[2] == "len(%s)" % v and t) or
+                              (k[0] == "==" and {k[1], k[2]} == {"0", "len(%s)" % v} and not t) for (k, t) in f)
+                from ..model import ancestors as _anc
+                caught = any(isinstance(a, ast.Try) and any(h.type is None or "IndexError" in unparse(h.type) or "LookupError" in unparse(h.type) or unparse(h.type) == "Exception"
+                                                            for h in a.handlers) for a in _anc(x))
+                desc = {"scheme": s.name, "list": v, "subscript": unparse(x), "line": n.line}
+                if guarded or caught:
+                    r9.ok(desc)
+                else:
+                    r9.fail_fn(fi, x, "possibly empty list %s indexed" % v,
+                               "%s._Search evaluates %s although %s is still the empty list when no entry was found (every statement that fills it is conditional): "
+                               "searching an absent keyword raises IndexError instead of returning an empty result" % (s.name, unparse(x), v), witness=desc)
+    r9.instance({"schemes": len(schemes)})
+
+    # ------------------------------------------------------------------ R2.8 the keyword enters the derivations as it is
+    r8 = Rule("R2.8", "the keyword reaches every derivation unmodified (padding, stripping, case folding or truncating it makes distinct keywords collide)")
+    rules.append(r8)
+    LOSSY = {"ljust", "rjust", "center", "zfill", "strip", "lstrip", "rstrip", "lower", "upper", "title", "capitalize", "casefold", "swapcase",
+             "replace", "translate", "split", "rsplit", "partition", "rpartition", "removeprefix", "removesuffix", "expandtabs", "decode", "hex"}
+    n_uses = 0
+    for s in schemes:
+        for mname in ("_Trap", "_Enc"):
+            fi = s.method(mname)
+            ftk = fn_terms(repo, fi)
+            kwt = make_kw_test(None, fi.params[2]) if mname == "_Trap" else make_kw_test(fi.params[2], None)
+            seen, reported = set(), set()
+            for n in ftk.cfg.nodes:
+                if n.stmt is None or n.ast is None:
+                    continue
+                for c in ast.walk(n.ast if n.kind == "test" else n.stmt):
+                    if not isinstance(c, ast.Call) or id(c) in seen:
+                        continue
+                    seen.add(id(c))
+                    try:
+                        t = ftk.term(c, n.id, _comp_env(ftk, c, n.id))
+                    except Exception:
+                        continue
+                    for x in walk(t):
+                        if not (isinstance(x, tuple) and x):
+                            continue
+                        bad = None
+                        if x[0] == "mcall" and isinstance(x[1], tuple) and x[1] and kwt(x[1]) and x[2] in LOSSY:
+                            bad = "%s.%s(...)" % (show(x[1], maxdepth=2), x[2])
+                        elif x[0] == "slice" and isinstance(x[1], tuple) and x[1] and kwt(x[1]):
+                            bad = "a slice of %s" % show(x[1], maxdepth=2)
+                        elif x[0] == "binop" and x[1] == "Mod" and isinstance(x[2], tuple) and x[2] and kwt(x[2]):
+                            bad = "%s %% ..." % show(x[2], maxdepth=2)
+                        if isinstance(x[1] if len(x) > 1 else None, tuple) and x[1] and kwt(x[1]):
+                            n_uses += 1
+                        if bad and bad not in reported:
+                            reported.add(bad)
+                            r8.fail_fn(fi, c, "keyword transformed before use",
+                                       "%s.%s derives from %s instead of the keyword itself: two different keywords (e.g. one being the other plus trailing NUL bytes, or differing "
+                                       "in case / beyond the cut) are mapped to the same labels, so a search for the absent one returns the stored one's postings" % (s.name, mname, bad))
+            if not reported:
+                r8.ok({"scheme": s.name, "method": mname})
     r1.require(n_primary >= 10, schemes[0].method("_Search"), "primary lookups floor",
                "only %d token-indexed dictionary lookups found (expected >= 10, at least one per scheme)" % n_primary)
     return rules
